@@ -79,6 +79,7 @@ Complaints(e) == CASE e.ev = "PlmnRow" -> RowComplaints(e)
                    [] e.ev = "Tla" -> TlaComplaints(e)
                    [] e.ev = "Pco" -> PcoComplaints(e)
                    [] e.ev = "Dnn" -> DnnComplaints(e)
+                   [] e.ev = "Held" -> (IF HeldVerdict(e).ok THEN {} ELSE {HeldVerdict(e).why})
                    [] OTHER -> {"no action of the specification matches this event"}
 Explain(e) == LET c == Complaints(e) IN IF c = {} THEN Ok ELSE No(Str(CHOOSE x \in c : TRUE) \o (IF Cardinality(c) > 1 THEN " (+" \o Str(Cardinality(c) - 1) \o " more)" ELSE ""))
 
